@@ -35,7 +35,7 @@ def required(tier):
 
 def gen_cases(seed, tier):
     rng = np.random.default_rng([seed, 20])
-    n = 1000 if tier == 'quick' else 40000
+    n = 1000 if tier == 'quick' else 240000
     cases = []
     for i in range(n):
         if i % 8 == 7:
